@@ -868,6 +868,17 @@ func (s *SpecValidator) expandedAnalyzer() *analysis.Spec {
 	return s.analyzer
 }
 
+// definitionsToWalk returns the definitions the default and example walkers go through: those of the
+// expanded copy of the document when there is one. The walkers compile schema validators, which
+// resolve nested $ref in place: on the caller's document that rewrites e.g. the items of an array
+// definition that carries a default.
+func (s *SpecValidator) definitionsToWalk() spec.Definitions {
+	if s.expanded != nil && s.expanded.Spec() != nil && s.expanded.Spec().Definitions != nil {
+		return s.expanded.Spec().Definitions
+	}
+	return s.spec.Spec().Definitions
+}
+
 func deepCloneSchema(src spec.Schema) (spec.Schema, error) {
 	var b bytes.Buffer
 	if err := gob.NewEncoder(&b).Encode(src); err != nil {
